@@ -497,7 +497,8 @@ def gen_once2(rng):
 def gen_syscall(rng):
     """C17: sequences of calls over several keys and entry points, nested (direct) calls in exclusive systems and calls
     made from queued commands, same-key re-entrancy, spawned systems missing / running / despawned.
-    Run-0 scripts only call strictly higher-ranked keys, so re-entrant fresh instances cannot recurse for ever."""
+    Run-0 scripts of syscall / named_syscall keys only call higher-ranked keys; later runs may call back (same-key
+    re-entrancy); harness and model cap the number of calls per scenario, so every scenario terminates."""
     out = ["mode syscall"]
     ranks = [(k, key) for k in "fns" for key in range(3)]
     def call(min_rank):
@@ -513,7 +514,9 @@ def gen_syscall(rng):
             ops = []
             for _ in range(rng.randint(0, 2)):
                 x = rng.random()
-                c = call(r + 1 if run == 0 else 0)
+                # syscall / named_syscall scripts only call higher-ranked keys (no cycles through re-entrant fresh state);
+                # spawned systems may call anything: a cycle through a running spawned system is cut by its error
+                c = call(0 if (k == "s" or (run >= 1 and rng.random() < 0.35)) else r + 1)
                 if c is None or x >= 0.75: ops.append("w %d" % rng.randrange(100))
                 elif x < 0.3 and excl: ops.append("d " + c)
                 else: ops.append("q " + c)
